@@ -154,6 +154,11 @@ METHODS = {
 }
 for _n, _ms in METHODS.items():
     EDGES[_n] = [('%s.%s' % (_n, m), m, (lambda o, m=m: getattr(o, m)())) for m in _ms]
+# a DECAngle IS a float (subclass): the decimal-degree functions that take the object as their number on the pinned tree
+# (dec2dms(hp2deca(x)) and the like; dec2hp / dec2gon do not - they compare or multiply the object itself - and are not claimed)
+EDGES['deca'] = EDGES['deca'] + [('%s(DECAngle)' % nm, tg, fn) for nm, tg, fn in EDGES['dec'] if nm in ('dec2dms', 'dec2ddm', 'dd2sec', 'math.radians')]
+
+
 # The tables above are what the library offered when the check was written.  Conversions ADDED since (any function of
 # geodepy.angles named <notation>2<notation>, any angle-class method named after a notation) are discovered by name and explored
 # and judged like the others: a notation is a notation whichever function produced it.
